@@ -218,6 +218,8 @@ let rec bz_of_spos = function
 let bz_of_sn = function S.N0 -> BZ.zero | S.Npos p -> bz_of_spos p
 
 let skel_cases = ref 0
+let endfile : (int * int) option ref = ref None
+let endskel : (int * int) option ref = ref None
 let process_skel (toks : string list) =
   incr skel_cases;
   let dummy = { id = "skel" ^ string_of_int !skel_cases; stream = "skeleton"; hex = false; text = []; domain = false; digits = [];
@@ -269,6 +271,8 @@ let () =
       | "ACCESS", _ -> (match rest () with k :: r -> access := (int_of_string k, fst (take_cps r)) :: !access | _ -> ())
       | "ENDTABLES", _ -> check_tables !kws !puncts (List.rev !newsyms) !access
       | "SKEL", _ -> process_skel (rest ())
+      | "ENDFILE", _ -> (match rest () with [n] -> endfile := Some (int_of_string n, !cases) | _ -> ())
+      | "ENDSKEL", _ -> (match rest () with [n] -> endskel := Some (int_of_string n, !skel_cases) | _ -> ())
       | "LAWFAIL", Some r -> mismatch r "oracle-law" (String.concat " " (rest ()))
       | "CASE", _ ->
         (match rest () with
@@ -301,4 +305,12 @@ let () =
       | _ -> ()   (* extra lines (IMPORT ..., ORIG ...) are for the python side *)
     done with End_of_file -> ());
   Printf.printf "SKELETON %d\n" !skel_cases;
+  (* the harness closes its files with the number of records it wrote: a truncated file has no marker,
+     a reader that lost records disagrees with it *)
+  (match !endfile with
+   | None -> Printf.printf "ENDMARK missing\n"
+   | Some (n, seen) -> Printf.printf "ENDMARK %s %d %d\n" (if n = seen && n = !cases then "ok" else "mismatch") n !cases);
+  (match !endskel with
+   | None -> Printf.printf "SKELMARK missing\n"
+   | Some (n, seen) -> Printf.printf "SKELMARK %s %d %d\n" (if n = seen && n = !skel_cases then "ok" else "mismatch") n !skel_cases);
   Printf.printf "CASES %d COMPARED %d MISMATCHES %d\n" !cases !compared !mismatches
